@@ -202,8 +202,14 @@ def run(ctx: Any, prog: Program) -> None:
     ctx.check('C13.Z2', len(terms) == 3, vpk, wd, f'one empty-string terminator per nesting level is required (found {len(terms)})', func='VPK.write_dirfile', text='level terminators')
     wn = vpk.func('_write_nullstring')
     rn_ = vpk.func('iter_nullstr')
-    ok = "b' \\x00'" in ast.unparse(wn) and "string == ' '" in ast.unparse(rn_)
-    ctx.check('C13.Z2', ok, vpk, wn, "empty names are stored as a single space on both sides", func='_write_nullstring', text='empty string convention')
+    # structural: the writer emits the constant b' \x00' somewhere, the reader has an arm `<x> == ' '` that yields ''
+    w_space = any(isinstance(c, ast.Constant) and c.value == b' \x00' for c in ast.walk(wn))
+    r_space = any(isinstance(i, ast.If) and isinstance(i.test, ast.Compare) and len(i.test.ops) == 1 and isinstance(i.test.ops[0], ast.Eq)
+                  and any(isinstance(x, ast.Constant) and x.value in (' ', b' ') for x in [i.test.left] + i.test.comparators)
+                  and any(isinstance(y, ast.Yield) and isinstance(y.value, ast.Constant) and y.value.value == '' for st in i.body for y in ast.walk(st))
+                  for i in ast.walk(rn_))
+    ok = w_space == r_space
+    ctx.check('C13.Z2', ok and w_space, vpk, wn, "empty names are stored as a single space on both sides", func='_write_nullstring', text='empty string convention')
     # ---- Z3 ------------------------------------------------------------------------------------------------
     def placement(fn: ast.AST) -> Dict[str, Set[str]]:
         """storage kinds used under `arch_index is None` (true) and otherwise (false)"""
